@@ -250,9 +250,9 @@ impl Runtime {
 
     /// Interrupt the program. Displays `BREAK` error.
     pub fn interrupt(&mut self) {
-        if let State::RuntimeError(_) = self.state {
-            // Already stopping to report STOP or an error. Taking the
-            // interrupt as well would overwrite the continuation.
+        if let State::RuntimeError(_) | State::Interrupt = self.state {
+            // Already stopping to report STOP, an error or an earlier interrupt.
+            // Taking the interrupt as well would overwrite the continuation.
             return;
         }
         self.cont = State::Interrupt;
